@@ -42,7 +42,8 @@ EXPECTED_PROBES = [f"fault_cut_{c}_{k}" for c in CUT_CLASSES for k in ("fin", "r
     "probe_two_or_more_pending", "probe_three_pending", "probe_out_of_order_arrival", "probe_call_after_loss", "probe_close_race",
     "probe_retry_path", "probe_server_error", "probe_server_shutdown", "probe_peer_push_handled", "probe_cut_with_calls_pending",
     "probe_big_response", "probe_big_request", "probe_unencodable_request", "probe_broken_on_error_ran",
-    "probe_many_unencodable_requests_then_a_call", "net_cut_timeout", "probe_two_connections", "line_preemptions_hot"]
+    "probe_many_unencodable_requests_then_a_call", "net_cut_timeout", "probe_two_connections", "line_preemptions_hot", "probe_bidirectional", "probe_reverse_call",
+    "probe_server_initiated_close"]
 WALL_CAP = {"quick": 400, "thorough": 3600}
 
 
@@ -60,10 +61,12 @@ def plan(tier):
     if tier == "quick":
         return [("real", {"peer": "real"}, 2600, 50), ("adversary", {"peer": "scripted"}, 2200, 50),
                 ("real-lines", {"peer": "real", "lines": 1}, 500, 25), ("two-clients", {"peer": "real", "clients": 2}, 500, 25),
-                ("real-hot", {"peer": "real", "lines": 1, "hot": HOT, "hot_budget": 4}, 2200, 50)]
+                ("real-hot", {"peer": "real", "lines": 1, "hot": HOT, "hot_budget": 4}, 2200, 50),
+                ("bidir", {"peer": "real", "bidir": 1}, 1500, 50)]
     return [("real", {"peer": "real"}, 70000, 100), ("adversary", {"peer": "scripted"}, 70000, 100),
             ("real-lines", {"peer": "real", "lines": 1}, 30000, 50), ("two-clients", {"peer": "real", "clients": 2}, 30000, 50),
-            ("real-hot", {"peer": "real", "lines": 1, "hot": HOT, "hot_budget": 4}, 60000, 100)]
+            ("real-hot", {"peer": "real", "lines": 1, "hot": HOT, "hot_budget": 4}, 60000, 100),
+            ("bidir", {"peer": "real", "bidir": 1}, 60000, 100)]
 
 
 def _from_harness(exc):
@@ -80,6 +83,8 @@ def scenario(ch, cfg):
     w, net = env.w, env.net
     stats = w.stats
     ncallers = 1 + ch.weighted([2, 3, 3], "ncallers")
+    if cfg.get("bidir"):
+        ncallers = max(2, ncallers)      # at least one caller per direction
     ncalls = [1 + ch.weighted([3, 2, 1], "ncalls") for _ in range(ncallers)]
     total_calls = sum(ncalls)
     # ---- fault plan
@@ -111,18 +116,24 @@ def scenario(ch, cfg):
         violations.append({"sig": sig, "msg": msg})
 
     # ---- server
+    bidir = bool(cfg.get("bidir"))
+    SRC = ["sq::{x*x}", "v::4711", "cnt::{[a];a::x;#a}", "big::{[a];a::x;!a}"]
     if peer_kind == "real":
         env.server.klong["unpd"] = {1: (lambda: 0)}      # a server-side value that cannot be pickled
+        if bidir:
+            # the documented server-push set-up: .srv.o receives the handle of the connecting client and keeps it;
+            # the server later calls the client through it (docs/ipc_capabilities.md, "Server Callbacks")
+            SRC = SRC + ["cl::0", ".srv.o::{cl::x}"]
+            env.client.klong["unpd"] = {1: (lambda: 0)}
+            for line in SRC[:4]:
+                env.client.klong(line)
         if fault != "connect-first":
-            env.start_server(src=["sq::{x*x}", "v::4711", "cnt::{[a];a::x;#a}", "big::{[a];a::x;!a}"])
-            w.run(until=lambda: env.listener_up(), max_steps=2000)
+            env.start_server(src=SRC)
+            w.run(until=lambda: env.listener_up() and (not bidir or env.booted()), max_steps=2000)
         else:
             stats["probe_retry_path"] += 1
             # the listener appears only after the client's first attempt was refused
-            env.server.klongloop.call_later(2.0 + ch.draw(8, "srvdelay"), lambda: [env.server.klong(f".srv({PORT})"),
-                                                                                  env.server.klong("sq::{x*x}"), env.server.klong("v::4711"),
-                                                                                  env.server.klong("cnt::{[a];a::x;#a}"),
-                                                                                  env.server.klong("big::{[a];a::x;!a}")])
+            env.server.klongloop.call_later(2.0 + ch.draw(8, "srvdelay"), lambda: [env.server.klong(f".srv({PORT})")] + [env.server.klong(line) for line in SRC])
     else:
         w.run(until=lambda: env.listener_up(), max_steps=2000)
 
@@ -159,6 +170,20 @@ def scenario(ch, cfg):
         nc2 = state["nc2"]
         stats["probe_two_connections"] += 1
     ncs = [nc] if nc2 is None else [nc, nc2]
+    if bidir:
+        # the server's handle on the same connection: odd-numbered callers are server-side threads calling the client
+        def server_handle():
+            try:
+                return env.server.klong["cl"]
+            except KeyError:
+                return None
+        w.run(until=lambda: isinstance(server_handle(), ipc.NetworkClient), max_steps=4000)
+        snc = server_handle()
+        if not isinstance(snc, ipc.NetworkClient):
+            viol("C14:srv.o-did-not-receive-the-client-handle", f".srv.o::{{cl::x}} left cl = {snc!r} after the client connected")
+            return _finish(env, violations, records, {}, False)
+        ncs = [nc, snc]
+        stats["probe_bidirectional"] += 1
     # application callbacks of the Python API (NetworkClient(on_error=..., on_close=...)) that themselves fail:
     # the documented handling is "log and go on" - the pending callers are failed all the same
     # (on_error is looked up when the error happens; on_close is bound when the client starts, so only the former
@@ -243,6 +268,8 @@ def scenario(ch, cfg):
                    "expected": exp, "inv_step": w.steps, "ret_step": None, "conn": i % len(ncs),
                    "after_loss": (i % len(ncs)) in state.get("lost_conn", ())}
             records.append(rec)
+            if bidir and i % 2 == 1:
+                stats["probe_reverse_call"] += 1
             np_ = pending_now()
             if np_ >= 2:
                 stats["probe_two_or_more_pending"] += 1
@@ -298,13 +325,20 @@ def scenario(ch, cfg):
     closer = None
     if fault == "close-race":
         delay = ch.draw(60, "close.delay")
+        close_side = ch.draw(2, "close.side") if bidir else 0
 
         def do_close():
             for _ in range(delay):
                 w.yield_point("wait")
             stats["probe_close_race"] += 1
             w.note("close() begins")
-            nc.close()
+            if bidir and close_side:
+                # the server closes this connection through its handle (what its shutdown event does): the same
+                # handshake, started from the other end
+                stats["probe_server_initiated_close"] += 1
+                ncs[1].close()
+            else:
+                nc.close()
             w.note("close() returned")
         closer = w.spawn("closer", do_close)
         actors.append(closer)
@@ -360,7 +394,7 @@ def scenario(ch, cfg):
                 viol("C14:unencodable-request-returned-a-value", f"call {rec['caller']}.{rec['idx']} {rec['msg']} returned {str(oc[1])[:60]!r} "
                      f"although its request cannot be encoded; {ctx}")
             continue
-        if len(ncs) == 2 and rec["conn"] == 1 and oc[0] == "exc" and exp not in ("error", "must-fail"):
+        if nc2 is not None and rec["conn"] == 1 and oc[0] == "exc" and exp not in ("error", "must-fail"):
             only_conn0 = fault in ("cut", "close-race") or (fault == "server-error" and error_call is not None and error_call[0] % 2 == 0)
             if only_conn0:
                 viol("C14:failure-leaked-to-other-connection", f"call {rec['caller']}.{rec['idx']} {rec['msg']} on the second client's own connection raised "
